@@ -200,3 +200,55 @@ def multiset_distance(a, b):
         worst = max(worst, abs(b[j] - v))
         b.pop(j)
     return worst
+
+
+# ---------------------------------------------------------------------------
+# call histories (reference model of the caller's objects)
+# ---------------------------------------------------------------------------
+# The reference model of a sequence of calls is deliberately trivial: the caller's data table is whatever the caller
+# put there - no estimate / simulate call changes it - and an estimated model object holds the estimates of its own
+# last estimate call.  Hence every estimate of a history has to be the least-squares solution on the complete rows of
+# ITS span of the ORIGINAL table, whatever was called before, on whichever objects.
+
+def span_rows(y, x, p, ic, lo, hi):
+    """regression arrays of the base rows lo..hi (inclusive) of the original table"""
+    y0, Rg, complete = stack(y, x, p, ic)
+    return y0[:, lo:hi + 1], Rg[:, lo:hi + 1], complete[lo:hi + 1]
+
+
+H_SPANS = ("S", "L")                      # short (interior) span, long span (the whole table)
+H_EST_TARGETS = ("none", "sep", "same")   # target_db: not given | a separate databox | the input databox itself
+H_MODELS = ("same", "fresh")              # the model object of the previous estimate | a newly constructed one
+H_SIM_TARGETS = ("none", "db", "est")     # simulate target_db: not given | the data databox | simulate's own input
+
+
+def history_alphabet():
+    """letters: ("E", span, target, model) | ("S", target) | ("X",) = the caller overwrites, in place, every series of
+    the databox returned by the last estimate"""
+    out = [("E", sp, tg, md) for sp in H_SPANS for tg in H_EST_TARGETS for md in H_MODELS]
+    out += [("S", tg) for tg in H_SIM_TARGETS]
+    out.append(("X",))
+    return out
+
+
+def history_sequences(max_len, min_len=1):
+    """every valid word of min_len..max_len letters.  Valid: the first letter is an estimate with a fresh model; "S"
+    and "X" need the databox returned by the last estimate to be still intact (no "X" since)."""
+    alphabet = history_alphabet()
+    out = []
+
+    def extend(word, have_model, est_intact):
+        if min_len <= len(word):
+            out.append(tuple(word))
+        if len(word) == max_len:
+            return
+        for letter in alphabet:
+            if letter[0] == "E":
+                if not have_model and letter[3] != "fresh":
+                    continue
+                extend(word + [letter], True, True)
+            elif est_intact:
+                extend(word + [letter], have_model, letter[0] != "X")
+
+    extend([], False, False)
+    return out
